@@ -343,5 +343,19 @@ PROPS["C15"] = {
     "exhaustive": True,
 }
 
+PROPS["C09"] = {
+    "module": "MsiProofs.Props.C09",
+    "gen": ["limits", "summary", "column", "codepage", "category"],
+    "profiles": ["dev"],
+    "theorems": ["MsiProofs.C09.np_bind", "MsiProofs.C09.np_propset_read", "MsiProofs.C09.np_pool_read", "MsiProofs.C09.np_readRows",
+                 "MsiProofs.C09.np_openCore", "MsiProofs.C09.open_never_panics", "MsiProofs.C09.stream_reads_never_panic"],
+    "level_text": "Lean theorem: in the model every unwrap / index / panic! / debug_assert! of the Rust is a visible `panic` outcome, and Package::open has no reachable panic outcome for ANY container (any map from stream names to byte strings, any root class id) - proved by showing every reader (property set with seeks, string pool with the long-string escape, column-major tables, the three catalog passes, type words) panic-free under bind. Partial: bytes -> container is the cfb crate, and mutating operations on foreign files are tied by correspondence rather than proved. Tie: three-way outcome diff (value / error kind / panic) of open and of a battery of read and mutate+flush calls on structure-aware corruptions of three base files (one written by the library, two by the independent encoder incl. three-byte references): any word of any stream replaced (null / dangling / huge reference, out-of-range number, pool lengths and counts, header words), streams truncated, extended, missing, property-set bytes mutated, wrong class id; plus raw and byte-damaged files straight into Package::open (fuzzing in support).",
+    "level_note": PROPS["C01"]["level_note"] + " FFI (ffi/src/lib.rs) is not executed by the harness: its two panic sites were repaired and its calls are the same open / getters / select exercised here.",
+    "technique": "Lean 4 proof (panic-freedom of the reader for all containers) + three-way outcome differential testing on corruptions",
+    "rule": "one corruption per case (open walks a HashMap: with two faults the first error met is not fixed); kinds: word_replaced, truncated, halved, extended, stream_missing, summary_byte, wrong_clsid; each followed by a fixed battery of 18 calls; raw byte inputs: random bytes, truncated files, files with 1-4 damaged bytes. non-trivial = distinct inputs",
+    "trusted_base": PROPS["C01"]["trusted_base"] + ["cfb 0.10 (bytes -> container; its Stream::seek refuses positions beyond the end)"],
+    "assumptions": ["allocation failure for attacker-chosen lengths (up to 4 GiB, lazily committed on Linux) is outside the model"],
+}
+
 # reasons for properties not claimed (yet); everything else defaults to "not yet built"
 NOT_CLAIMED = {}
